@@ -50,7 +50,7 @@ def op_list(draw, kind, two, allow_join, n_max, allow_buffer=True):
     for _ in range(draw(st.integers(0, n_max))):
         cands = ["map", "accumulate", "union"] + (["buffer"] if allow_buffer else [])
         if kind == "int":
-            cands += ["partition", "sliding_window"]
+            cands += ["partition", "sliding_window", "forkzip"]
             if two and allow_join and not any(o[0] in ("zip2", "union2") for o in ops):
                 cands += ["zip2", "zip2", "union2", "union2"]
         else:
@@ -84,6 +84,11 @@ def op_list(draw, kind, two, allow_join, n_max, allow_buffer=True):
             kind = "tuple"
         elif op == "zip2":
             ops.append(["zip2"])
+            kind = "pair"
+        elif op == "forkzip":
+            # two branches of the same node, mapped with two different functions of the same
+            # name, zipped again
+            ops.append(["forkzip"])
             kind = "pair"
         elif op == "union2":
             ops.append(["union2"])
@@ -179,6 +184,8 @@ def build(case, dask):
         elif k == "union2":
             node = node.union(sb)
             used_b = True
+        elif k == "forkzip":
+            node = node.map(FUN["twin_a"]).zip(node.map(FUN["twin_b"]))
     out = []
     timeline = []   # ("out", k) / ("cb", i) in the order they happened
     if dask:
